@@ -186,6 +186,13 @@ func (fc *FnCtx) mapDelete(m Val, k Val) {
 
 func (fc *FnCtx) doNext(x *ssa.Next) {
 	v := fc.freshValWF("next", x.Type())
+	if x.IsString {
+		// (ok bool, index int, r rune): ok ==> 0 <= index < len(s)
+		if rng, ok := x.Iter.(*ssa.Range); ok {
+			s := fc.operand(rng.X)
+			fc.cur.assume(implies(v.L[0], and(app("bvsle", bvLit(0, 64), v.L[1]), app("bvslt", v.L[1], app("strlen", s.L[0])))))
+		}
+	}
 	fc.setVal(x, v)
 }
 
